@@ -214,6 +214,7 @@ def run(chk, mode_filter=None, alg_filter=None, only_cells=False, ids=('T2', 'T2
         t4 = chk.rule('T4', 'cipher dispatch ORs only COMPLETED_CIPHER (or COMPLETED for whole-job AEAD), hash dispatch only COMPLETED_AUTH', floor=300)
         t5 = chk.rule('T5', 'submit_new_job: GCM bypass only for IMB_CIPHER_GCM, first stage by chain_order, then RESUBMIT', floor=16)
         t6 = chk.rule('T6', 'a cell that parks jobs in an out-of-order manager flushes the same manager', floor=400)
+        run_t7(chk, P)
     nvar = 0
     acc_ref = None
     for tu in P.variant_tus():
@@ -599,3 +600,90 @@ def _pairing(t3, P, tu, vt, modes, algs):
             t3.check(pr in m2h and pr in h2m, '%s:%s:%s<->%s' % (vt, fn, pr[0], pr[1]), P.func(tu, fn).loc,
                      '%s: AEAD pairing %s <-> %s is enforced only on the %s side' % (fn, pr[0], pr[1], 'cipher' if pr in m2h else 'hash'))
         t3.check(len(m2h) >= 6, '%s:%s:pairs' % (vt, fn), P.func(tu, fn).loc, '%s enforces only %d AEAD pairings' % (fn, len(m2h)))
+
+
+# ---------------------------------------------------------------------------------------------------------------------------
+# T7: the stage handler of a job is looked up from that job's own suite id
+
+_TAB = re.compile(r'^tab_(submit|flush)_(cipher|hash)$')
+
+
+def _tab_reads(e, out, parent_call=None):
+    e0 = cf.strip_casts(e)
+    if not isinstance(e0, dict):
+        return
+    if e0.get('k') == 'idx':
+        b = cf.strip_casts(e0['b'])
+        if isinstance(b, dict) and b.get('k') == 'ref' and b.get('g') and _TAB.match(b['n']):
+            out.append((b['n'], e0['i'], parent_call))
+    if e0.get('k') == 'call':
+        c = e0.get('callee')
+        if isinstance(c, dict):
+            _tab_reads(c, out, e0)
+        for a in e0.get('a', []) or []:
+            _tab_reads(a, out, None)
+        return
+    for key in ('l', 'r', 'e', 'b', 'i', 't', 'f', 'c'):
+        v = e0.get(key)
+        if isinstance(v, dict):
+            _tab_reads(v, out, None)
+
+
+def run_t7(chk, P):
+    from .. import guards
+    t7 = chk.rule('T7', 'a handler fetched from tab_submit/flush_cipher/hash is indexed by suite_id[0] (cipher) / suite_id[1] (hash) of a job and applied '
+                        'to that same job, in the same expression: a multi-buffer submit may return a DIFFERENT job, so a handler kept across '
+                        'iterations runs the job of another session through the wrong algorithm', floor=30)
+    for tu in P.variant_tus():
+        vt = tu.split('__')[0]
+        for f in P.funcs(tu):
+            assigned = set()
+            for _, _, ev in f.events(('assign',)):
+                l = cf.strip_casts(ev['lhs'])
+                if isinstance(l, dict) and l.get('k') == 'ref':
+                    assigned.add(l['n'])
+            inits = {}
+            for _, _, ev in f.events(('decl',)):
+                for d in ev['d']:
+                    if d.get('init') is not None:
+                        inits[d['n']] = d['init']
+            with guards.in_function(f):
+                for b, i, ev in f.events():
+                    exprs = [ev.get(k) for k in ('e', 'rhs', 'val') if ev.get(k)]
+                    if ev['k'] == 'decl':
+                        exprs += [d['init'] for d in ev['d'] if d.get('init') is not None]
+                    for x in exprs:
+                        reads = []
+                        _tab_reads(x, reads)
+                        for tab, index, call in reads:
+                            want = 0 if tab.endswith('cipher') else 1
+                            ix = cf.strip_casts(guards.expand(f, index, b))
+                            for _ in range(3):      # a local holding the index stands for its (only) initialiser, a call included
+                                if isinstance(ix, dict) and ix.get('k') == 'ref' and not ix.get('p') and not ix.get('g') and \
+                                        ix['n'] in inits and ix['n'] not in assigned:
+                                    ix = cf.strip_casts(inits[ix['n']])
+                            # the index is computed from one job: suite_id[k] of it (burst / resubmit paths) or its hash_alg (job API)
+                            jobs_ = set()
+                            for nd in cf.walk(ix if isinstance(ix, dict) else {}):
+                                if nd.get('k') == 'mem' and 'IMB_JOB' in (nd.get('rec') or ''):
+                                    jobs_.add(guards.lv(nd['b']).lstrip('&'))
+                                elif nd.get('k') == 'ref' and re.search(r'\bIMB_JOB \*', nd.get('ty') or ''):
+                                    jobs_.add(guards.lv(nd))
+                            job = next(iter(jobs_)) if len(jobs_) == 1 else None
+                            okidx = job is not None
+                            if isinstance(ix, dict) and ix.get('k') == 'idx':
+                                m = cf.strip_casts(ix['b'])
+                                if isinstance(m, dict) and m.get('k') == 'mem' and m.get('f') == 'suite_id':
+                                    okidx = okidx and cf.evalc(ix['i']) == want
+                            key = '%s:%s:%s@%s' % (vt, f.name, tab, ev['loc'].split('/')[-1])
+                            if not okidx:
+                                t7.bad(key, ev['loc'], '%s reads %s[%s]: not suite_id[%d] of a job' % (f.name, tab, guards.lv(index), want))
+                                continue
+                            if call is None:
+                                t7.bad(key, ev['loc'], '%s fetches a handler from %s[%s->suite_id[%d]] without calling it in the same expression: by the '
+                                                       'time it is called the job variable may designate another job (multi-buffer submits return a '
+                                                       'different job than they were given)' % (f.name, tab, job, want))
+                                continue
+                            args = call.get('a', [])
+                            t7.check(len(args) >= 2 and guards.lv(args[1]) == job, key, ev['loc'],
+                                     '%s applies the handler of %s to %s' % (f.name, job, guards.lv(args[1]) if len(args) >= 2 else '?'))
